@@ -7,6 +7,7 @@ VARIABLES hist
 Rec(o) == hist' = Append(hist, o @@ [exp |-> Cls(o)])
 Do(o) == Enabled(o) /\ Upd(o) /\ Rec(o)
 MCInit == Init /\ hist = <<>>
+SmallRanges == {<<-1, 3>>}
 Ranges == {<<-1, 3>>, <<0, 12>>, <<2, 5>>, <<4, 6>>, <<0, 1>>, <<5, 10>>}
 AOpen == \E h \in Handles, p \in Paths, v \in {"path", "filelike"} : Do([op |-> "open", h |-> h, p |-> p, via |-> v])
 AClose == \E h \in Handles, x \in {"close", "exit"} : Do([op |-> x, h |-> h])
@@ -18,10 +19,16 @@ AZoom == \E h \in Handles, i \in Iters, c \in 1..3, r \in Ranges, lvl \in {2, 3,
 AValues == \E h \in Handles, c \in 1..3, r \in Ranges \cup {<<-2, 2>>, <<8, 12>>} : Do([op |-> "values", h |-> h, c |-> c, s |-> r[1], e |-> r[2]])
 ANext == \E i \in Iters : Do([op |-> "next", i |-> i])
 AWOpen == \E w \in Writers, p \in Paths : Do([op |-> "wopen", w |-> w, p |-> p])
-AWWrite == \E w \in Writers, ds \in 1..3, g \in {0, 1, 1} : Do([op |-> "wwrite", w |-> w, ds |-> ds, good |-> g])
+AWWrite == \E w \in Writers, ds \in 1..3, g \in {0, 1} :
+             Do([op |-> "wwrite", w |-> w, ds |-> ds, good |-> g, items |-> IF wr[w].st = "none" THEN <<>> ELSE Data(Ext(wr[w].p), ds)])
 AWClose == \E w \in Writers : Do([op |-> "wclose", w |-> w])
 MCNext == Len(hist) < N /\ (AOpen \/ AClose \/ AAttr \/ AChrom1 \/ ARecords \/ AZoom \/ AValues \/ ANext \/ ANext \/ AWOpen \/ AWWrite \/ AWClose)
-Emit == Len(hist) = N => PrintT(<<"REPLAY", ToJson(hist)>>)
+\* (simulation evaluates this on every generated successor: only sequences ending in a call with few
+\* argument choices are printed, so that the printed set is not dominated by one walk's last step)
+SmallOps == {"close", "exit", "isbw", "isbb", "chroms", "zooms", "info", "sql", "chrom1", "next", "wclose", "wwrite", "wopen"}
+Emit == (Len(hist) = N /\ hist[N].op \in SmallOps) => PrintT(<<"REPLAY", ToJson(hist)>>)
+\* the data sets, for the driver's own random call sequences
+ASSUME PrintT(<<"DATA", ToJson([bw |-> <<DataW(1), DataW(2), DataW(3)>>, bb |-> <<DataB(1), DataB(2), DataB(3)>>])>>)
 \* design-level invariants of the object model
 TypeOK == /\ \A h \in Handles : rd[h].st \in {"none", "open", "closed"}
           /\ \A i \in Iters : it[i].st \in {"none", "live", "done"}
